@@ -72,6 +72,10 @@ POOL = [
     # one long-lived parser with two languages, asked for strings of either language (the reported locale is part of the outcome)
     mk("inst_multi_fr", "inst", "12 mai 2015 10:30", None, langs=["fr", "en"]),
     mk("inst_multi_en", "inst", "12 May 2015 10:30", None, langs=["fr", "en"]),
+    # numeric calendar dates whose day and month are both <= 12 (their reading depends on the date order in force), and a
+    # French call under default settings (it rewrites the order on the shared default settings object while it runs)
+    mk("hijri_amb", "hijri", "1432-05-09", None), mk("jalali_amb", "jalali", "1394/05/09", None),
+    mk("fr_default", "parse", "02/03/2015", "fr", nobase=True),
     mk("search_en_words", "search", "It happened yesterday and again on Monday", "en", adl=False),
     mk("search_ru_range", "search", "Это было с 12 января по 30 апреля 2021", "ru", adl=False),
     mk("search_de_words", "search", "Es war gestern und vorgestern", "de", adl=True),
@@ -90,11 +94,16 @@ PAIRS = [("fr_num", "en_num"), ("en_num", "en_dmy"), ("fr_num", "default"), ("en
          ("fmt_en", "en_num"), ("fmt_fr", "fr_num"), ("region_gb", "en_num"), ("loc_ca", "rel_en"), ("hijri", "jalali"),
          ("search_auto", "fr_num"), ("multi", "en_dmy"), ("region_gb", "multi"),
          ("en_skip", "search_en_words"), ("en_noskip", "search_en_words"), ("search_ru_range", "search_en"),
-         ("search_ru_range", "search_fr"), ("search_de_words", "rel_de"), ("search_auto_words", "en_skip"),
+         ("search_ru_range", "search_fr"), ("search_de_words", "rel_de"),
          ("search_en_words", "search_ru_range"), ("en_skipfoo", "search_en_words"), ("en_skipfoo", "en_num"),
          ("fr_skip_nonorm", "search_fr"), ("en_skipfoo", "search_en"),
          ("fmt_tz_est", "fmt_tz_tokyo"), ("fmt_tz_pkt_aware", "fmt_tz_est"), ("inst_multi_fr", "inst_multi_en"),
-         ("inst_multi_fr", "fr_num")]
+         ("inst_multi_fr", "fr_num"), ("fr_default", "hijri_amb"), ("fr_default", "jalali_amb"), ("hijri_amb", "jalali_amb")]
+
+
+# pairs explored with two pre-emptions (A outside the lock while B is half-way): calls that do work outside the lock
+TWO_PREEMPTIONS = {("hijri_amb", "fr_default"), ("jalali_amb", "fr_default"), ("search_ru_range", "search_en"),
+                   ("search_en_words", "en_skipfoo"), ("fmt_tz_est", "fmt_tz_tokyo")}
 
 
 def shards(tier, seed):
@@ -106,7 +115,7 @@ def shards(tier, seed):
     out = []
     for i, (a, b) in enumerate(PAIRS):
         out.append({"part": "pair", "a": a, "b": b, "refs": refs, "i": i})
-    out.append({"part": "stress", "refs": refs, "rounds": 4 if tier == "quick" else 20})
+    out.append({"part": "stress", "refs": refs, "rounds": 6 if tier == "quick" else 24})
     # cold start: each shard is a fresh interpreter whose very first library calls are made by 8 threads at once
     for j in range(4 if tier == "quick" else 40):
         out.append({"part": "cold", "refs": refs, "j": j})
@@ -151,21 +160,64 @@ def run_pair(ctx, desc):
                 slow = na.startswith("search_auto") or nb.startswith("search_auto")   # language autodetection: ~0.3 s per call
                 # when B does work before it reaches the library's lock (search_dates does), every location of A matters;
                 # otherwise B simply waits while A holds the lock and a seeded sample of A's locations is enough
-                cap, extra = (30, 8) if slow else ((100000, 30) if cb["api"] == "search" else (140, 30))
+                cap, extra = (12, 4) if slow else ((300, 30) if cb["api"] in ("search", "hijri", "jalali") else (140, 30))
                 if len(ks) > cap:
                     ks = sorted(rnd.sample(ks, cap))
                 ks = set(ks) | set(rnd.randrange(1, L + 1) for _ in range(extra))
                 # the stretches of A that run outside the lock (before it is taken, after it is released) are where two
                 # calls really overlap: every k from the start until B first has to wait, and from the end likewise
                 probe_cap = 40 if slow else 400
+                outside = []
                 for rng_k in (range(1, min(L, probe_cap) + 1), range(L, max(0, L - probe_cap // 2), -1)):
+                    run_blocked = 0
                     for k in rng_k:
                         r0 = sched.schedule(fa, fb, k)
                         ks.add(k)
-                        if r0["hung"] or (r0["fired"] and r0["blocked"]):
+                        if r0["hung"]:
                             break
+                        if r0["fired"] and r0["blocked"]:
+                            run_blocked += 1
+                            if run_blocked >= 6:      # a short locked section may be followed by more unlocked code
+                                break
+                            continue
+                        run_blocked = 0
+                        outside.append(k)
                         ctx.count("outside_lock_probe_schedules")
                 ks = sorted(ks)
+                if (na, nb) in TWO_PREEMPTIONS or (nb, na) in TWO_PREEMPTIONS:
+                    # two pre-emptions: A suspended at a point outside the lock, B suspended somewhere inside its own call,
+                    # A finishes, B finishes.  (One pre-emption cannot put A outside the lock *while* B is half-way.)
+                    _, LB, locs_b = sched.run_alone(fb, record=True)
+                    firstb = {}
+                    for idx, loc in enumerate(locs_b):
+                        firstb.setdefault(loc, idx + 1)
+                    kbs = sorted(firstb.values())
+                    kbs = sorted(rnd.sample(kbs, min(len(kbs), 40)))
+                    outside = sorted(set(outside))
+                    for ka in outside[::max(1, len(outside) // 8)][:9]:      # spread evenly over the outside-lock stretch
+                        for kb in kbs:
+                            r2 = sched.schedule(fa, fb, ka, kb=kb)
+                            if r2["hung"]:
+                                ctx.inconclusive.append("two-pre-emption schedule hung: pair %s|%s ka=%d kb=%d" % (na, nb, ka, kb))
+                                return
+                            if not (r2["fired"] and r2["b_fired"]):
+                                ctx.count("schedules2_not_realised")
+                                continue
+                            ctx.ran()
+                            ctx.count("schedules2_realised")
+                            if r2["a_waited_for_b"]:
+                                ctx.count("schedules2_A_waited_for_B")
+                            okA = C.same_outcome(r2["A"], ref_for(refs, ca))
+                            okB = C.same_outcome(r2["B"], ref_for(refs, cb))
+                            if not (okA and okB):
+                                ctx.violation({"pair": [na, nb], "k": ka, "kb": kb, "preempted_at": list(r2["loc"]),
+                                               "B_preempted_at": list(r2["b_loc"]), "A": ca, "B": cb},
+                                              {"A": r2["A"], "B": r2["B"]}, {"A": ref_for(refs, ca), "B": ref_for(refs, cb)},
+                                              "concurrent-divergence",
+                                              {"pair": "%s|%s" % (na, nb), "who": "A" if okB else ("B" if okA else "both"),
+                                               "file": r2["loc"][0], "exc": None, "two_preemptions": True})
+                            else:
+                                ctx.nontrivial(na, nb, ka, kb)
             ctx.count("lines_in_A:%s" % na, L)
             seen_locs = set()
             for k in ks:
@@ -254,10 +306,17 @@ def run_stress(ctx, desc):
             results = []
             lock = threading.Lock()
 
+            # even rounds: the whole pool; odd rounds: few keys, many threads — a handful of calls among which a default-settings
+            # call (it rewrites the shared default settings while it runs), an order-sensitive calendar call and two random ones
+            rr = random.Random(ctx.seed * 77 + rnd_i)
+            sub = FAST_POOL if rnd_i % 2 == 0 else \
+                [BY["fr_default"], BY[rr.choice(["hijri_amb", "jalali_amb"])], BY["en_num"]] + rr.sample(FAST_POOL, 2)
+            ctx.count("stress_rounds:%s" % ("whole-pool" if rnd_i % 2 == 0 else "few-keys"))
+
             def worker(wi):
                 r = random.Random(ctx.seed * 1000 + rnd_i * 10 + wi)
-                for _ in range(150):
-                    c = r.choice(FAST_POOL)
+                for _ in range(150 if rnd_i % 2 == 0 else 320):
+                    c = r.choice(sub)
                     out = C.execute(c, insts)
                     with lock:
                         results.append((c["name"], out))
@@ -403,7 +462,7 @@ def replay_case(ctx, v):
         for _ in range(2):
             sched.run_alone(fa)
             sched.run_alone(fb)
-        r = sched.schedule(fa, fb, c["k"])
+        r = sched.schedule(fa, fb, c["k"], kb=c.get("kb"))
     finally:
         sched.uninstall()
     if r["fired"] and not (C.same_outcome(r["A"], refs[ca["name"]]) and C.same_outcome(r["B"], refs[cb["name"]])):
